@@ -38,6 +38,8 @@ class Ctx:
         self.states = set()
         self._dir = None
         self.switches = 0
+        self.cover = False
+        self.lines = set()
 
     def scratch(self):
         if self._dir is None:
@@ -65,6 +67,8 @@ class Ctx:
         for kk, v in rec.get('probes', {}).items():
             self.probes[kk] = self.probes.get(kk, 0) + v
         self.digests.update(repr((rec.get('digest'), rec.get('status'), rec.get('outcome'), rec.get('stdout'), rec.get('stderr'))).encode('utf-8', 'backslashreplace'))
+        if rec.get('lines'):
+            self.lines.update(rec['lines'])
         if rec.get('switches'):
             self.interleavings.add(hashlib.sha1(repr(rec.get('sched_trace')).encode()).hexdigest()[:16])
         st = (rec.get('status'), rec.get('outcome'), rec.get('nconns'),
@@ -74,6 +78,8 @@ class Ctx:
 
     def run(self, plan, real_timeout=60.0):
         from . import runner
+        if self.cover:
+            plan = dict(plan, cover=True)
         return self._account(runner.run_forked(plan, real_timeout))
 
     def run_fresh(self, plan, hashseed='0'):
@@ -83,6 +89,23 @@ class Ctx:
 
 class HarnessError(Exception):
     pass
+
+
+def _line_cov(hit):
+    from . import runner
+    ex = runner.executable_lines()
+    per = {}
+    for h in hit:
+        fn, ln = h.rsplit(':', 1)
+        per.setdefault(fn, set()).add(int(ln))
+    out = {}
+    for fn in ('ssh_audit.py', 'ssh_socket.py', 'hostkeytest.py', 'gextest.py', 'kexdh.py', 'dheat.py', 'policy.py', 'algorithms.py', 'software.py', 'banner.py', 'readbuf.py', 'writebuf.py',
+               'ssh2_kex.py', 'ssh1_publickeymessage.py', 'outputbuffer.py', 'utils.py', 'timeframe.py', 'auditconf.py'):
+        e = ex.get(fn, set())
+        if e:
+            got = len(per.get(fn, set()) & e)
+            out[fn] = '%d/%d lines (%d%%)' % (got, len(e), round(100.0 * got / len(e)))
+    return out
 
 
 def load_campaign(pid):
@@ -98,6 +121,7 @@ def _case_worker(args):
         runner.prepare()
         camp = load_campaign(pid)
         ctx = Ctx(str(case.get('id', 'x')))
+        ctx.cover = isinstance(case.get('id'), int) and case['id'] % 8 == 0    # line coverage is sampled on every 8th case
         t0 = _real_time()
         try:
             res = camp.run_case(case, ctx)
@@ -107,7 +131,7 @@ def _case_worker(args):
             'id': case.get('id'), 'violations': res.get('violations', []), 'keys': res.get('keys', []), 'counters': res.get('counters', {}),
             'records': ctx.records, 'vtime_us': ctx.vtime_us, 'events': ctx.events, 'faults': ctx.faults, 'probes': ctx.probes,
             'digest': ctx.digests.hexdigest(), 'harness_errors': ctx.harness_errors[:3], 'interleavings': sorted(ctx.interleavings)[:64],
-            'states': sorted(ctx.states)[:64], 'wall': _real_time() - t0, 'switches': ctx.switches, 'info': res.get('info', [])[:5],
+            'states': sorted(ctx.states)[:64], 'lines': sorted(ctx.lines), 'wall': _real_time() - t0, 'switches': ctx.switches, 'info': res.get('info', [])[:5],
         }
         if want_detail:
             out['detail'] = res.get('detail')
@@ -271,6 +295,7 @@ def check(pid, tier, seed, jobs, budget_s=None, out=sys.stdout):
     faults, probes, counters = {}, {}, {}
     evaluations = vtime = events = switches = 0
     inter, states = set(), set()
+    lines_hit = set()
     by_sig = {}
     for r in results:
         evaluations += r.get('records', 0)
@@ -285,6 +310,7 @@ def check(pid, tier, seed, jobs, budget_s=None, out=sys.stdout):
             probes[kk] = probes.get(kk, 0) + v
         for kk, v in r.get('counters', {}).items():
             counters[kk] = counters.get(kk, 0) + v
+        lines_hit.update(r.get('lines', []))
         inter.update(r.get('interleavings', []))
         states.update(r.get('states', []))
         for v in r.get('violations', []):
@@ -332,6 +358,7 @@ def check(pid, tier, seed, jobs, budget_s=None, out=sys.stdout):
             'simulated_seconds': round(vtime / 1e6, 3), 'kernel_events': events, 'context_switches': switches,
             'fault_kinds_fired': faults, 'probes_hit': probes, 'distinct_interleavings': len(inter), 'distinct_outcome_states': len(states),
             'counters': counters,
+            'line_coverage_of_ssh_audit_sampled_every_8th_case': _line_cov(lines_hit),
             'components_real': ['every module under %s/src/ssh_audit (current working tree)' % runner.REPO, 'the exit-status wrapper %s/ssh-audit.py (run via runpy)' % runner.REPO,
                                 'argparse, json, struct, hashlib, re, copy'],
             'components_model': ['TCP/IP (simaudit.net)', 'DNS resolver', 'select', 'clock and sleep', 'os.urandom / random.SystemRandom',
